@@ -8,8 +8,10 @@ import PyAirtouch.Model.Bytes
 * `groups : Optional[set[int]]` is represented by the strictly increasing list of its elements
   (Python set equality does not depend on order; the canonical text sorts the elements *as text*).
 * The decoder is the `while offset < header.message_length:` loop of the source; it is defined by
-  well-founded recursion on `msgLen - offset` (every iteration advances the offset by the fixed struct
-  size 24, plus 2 when the record carries the group bitmap).
+  well-founded recursion on `msgLen - offset`: every iteration advances the offset by `2 + L`, where `L`
+  is the record's "following length" byte (a record with `L < 22`, or one that does not lie completely
+  inside `header.message_length`, is a `DecodeError`; the group bitmap is read iff `L ≥ 24`; bytes of the
+  record after the known ones are skipped).
 -/
 namespace PyAirtouch.Model.At4.FF11
 open PyAirtouch.Model PyAirtouch.Gen.At4.X1FFF11AcAbility
@@ -132,32 +134,37 @@ def decFanSpeedSupport (b : Nat) : List (AcFanSpeedControl × Bool) :=
 def decGroupDisplay (enc : Nat) : List Nat :=
   (List.range (MAX_GROUP_NUMBER + 1)).filter (fun g => bitToBool enc g)
 
-/-- the optional little-endian group bitmap that follows the fixed part -/
+/-- the optional little-endian group bitmap that follows the fixed part (bytes 25-26 of the record): read
+    iff the following length is at least 24; `after = buffer[offset + _STRUCT.size:]` -/
 def decGroups (following : Nat) (after : Bytes) : Except DecErr (Option (List Nat)) :=
-  if following = followingWithGroups then
+  if followingWithGroups ≤ following then
     match after with
     | lo :: hi :: _ => .ok (some (decGroupDisplay (lo + 256 * hi)))
-    | _ => .error .structError          -- `_GROUP_DISPLAY_STRUCT.unpack_from(buffer, offset)`
+    | _ => .error .structError          -- `_GROUP_DISPLAY_STRUCT.unpack_from(buffer, offset + _STRUCT.size)`
   else .ok none
 
-/-- one loop iteration on `bs = buffer[offset:]`: `_STRUCT.unpack_from`, the optional bitmap, then the
-    `AcAbility(...)` constructor call (whose first argument that can raise is `decode_c_string`).
-    The number of bytes consumed is `recSize` of the result. -/
-def decRec (bs : Bytes) : Except DecErr AcAbility :=
+/-- one loop iteration on `bs = buffer[offset:]`, with `avail = header.message_length - offset`:
+    `_STRUCT.unpack_from`, the test of the following length (`record_end > header.message_length` is
+    `avail < 2 + following`), the optional bitmap, then the `AcAbility(...)` constructor call (whose first
+    argument that can raise is `decode_c_string`).  Returns the record and its following length; the
+    offset advances by `2 + following`. -/
+def decRec (bs : Bytes) (avail : Nat) : Except DecErr (AcAbility × Nat) :=
   match bs with
   | acNumber :: following :: r =>
     match r.drop nameLen with
     | startGroup :: groupCount :: b23 :: b24 :: minSp :: maxSp :: after =>
+      if following < FOLLOWING_LENGTH_BASE ∨ avail < 2 + following then .error .decodeError
+      else
       match decGroups following after with
       | .error e => .error e
       | .ok groups =>
         match decodeCString (r.take nameLen) with
         | .error e => .error e
         | .ok name =>
-          .ok { ac_number := acNumber, ac_name := name, ac_mode_support := decModeSupport b23,
-                fan_speed_support := decFanSpeedSupport b24, min_set_point := minSp,
-                max_set_point := maxSp, groups := groups, start_group := startGroup,
-                group_count := groupCount }
+          .ok ({ ac_number := acNumber, ac_name := name, ac_mode_support := decModeSupport b23,
+                 fan_speed_support := decFanSpeedSupport b24, min_set_point := minSp,
+                 max_set_point := maxSp, groups := groups, start_group := startGroup,
+                 group_count := groupCount }, following)
     | _ => .error .structError
   | _ => .error .structError
 
@@ -165,21 +172,18 @@ theorem recSize_pos (ac : AcAbility) : STRUCT_size ≤ recSize ac := by
   simp only [recSize]; omega
 
 /-- `while offset < header.message_length: ...`; returns the abilities and the final offset.
-    Terminates because `msgLen - offset` decreases: the offset grows by `recSize ac ≥ 24`. -/
+    Terminates because `msgLen - offset` decreases: the offset grows by `2 + following`. -/
 def decLoop (buffer : Bytes) (msgLen offset : Nat) : Except DecErr (List AcAbility × Nat) :=
   if _h : offset < msgLen then
-    match decRec (buffer.drop offset) with
+    match decRec (buffer.drop offset) (msgLen - offset) with
     | .error e => .error e
-    | .ok ac =>
-      match decLoop buffer msgLen (offset + recSize ac) with
+    | .ok (ac, following) =>
+      match decLoop buffer msgLen (offset + (2 + following)) with
       | .error e => .error e
       | .ok (acs, off) => .ok (ac :: acs, off)
   else .ok ([], offset)
 termination_by msgLen - offset
-decreasing_by
-  have := recSize_pos ac
-  simp only [STRUCT_size] at this
-  omega
+decreasing_by omega
 
 /-- `AcAbilityDecoder.decode(buffer, header)`; `msgLen` is `header.message_length` -/
 def decode (buffer : Bytes) (msgLen : Nat) : Except DecErr (Msg × Bytes) :=
